@@ -12,7 +12,8 @@
 EXTENDS LiquidSem, LiquidSrc, IOUtils
 
 CONSTANTS
-  Pool,      \* set of nodes a program is built from (blocks carry their bodies)
+  PoolAt(_), \* PoolAt(i): set of nodes the i-th top-level node is drawn from
+             \* (blocks carry their bodies)
   DataSets,  \* set of data valuations: each a sequence of global layers
   Cfgs,      \* set of configurations
   MaxTop,    \* maximal number of top-level nodes
@@ -28,7 +29,7 @@ Add(n) ==
   /\ ~(n.k = "text" /\ prog # <<>> /\ prog[Len(prog)].k = "text")
   /\ prog' = Append(prog, n)
 
-Next == \E n \in Pool : Add(n)
+Next == \E n \in PoolAt(Len(prog) + 1) : Add(n)
 
 Spec == Init /\ [][Next]_prog
 
@@ -67,7 +68,16 @@ ErrorModel == {"", "LiquidTypeError", "LiquidSyntaxError", "UndefinedError", "Un
                "LiquidValueError", "UNSPEC"}
 Total == \A d \in DataSets, c \in Cfgs : Expect(d, c).err \in ErrorModel
 
-\* whitespace control changes nothing but whitespace (C18, on the reference)
-NoWs(s) == LET F[i \in 0..Len(s)] == IF i = 0 THEN "" ELSE
-                 IF Ch(s, i) \in WsSet THEN F[i - 1] ELSE F[i - 1] \o Ch(s, i) IN F[Len(s)]
+\* C18 on the reference: whitespace-control markers, the default trim mode and
+\* blank-block suppression change nothing but whitespace - the output with all
+\* of them removed/off is the same once whitespace is disregarded ...
+RECURSIVE NoWs(_)
+NoWs(s) == IF s = "" THEN "" ELSE IF Ch(s, 1) \in WsSet THEN NoWs(SubSeq(s, 2, Len(s)))
+           ELSE Ch(s, 1) \o NoWs(SubSeq(s, 2, Len(s)))
+Plain(d, c) == Render(<<<<"main", AnnotTemplate(ClearWc(prog))>>>>, "main", d,
+                      [c EXCEPT !.trim = "+", !.suppress = FALSE])
+WsOnly == \A d \in DataSets, c \in Cfgs :
+            LET r == Expect(d, c)
+                p == Plain(d, c)
+            IN (r.ok /\ p.ok) => NoWs(r.out) = NoWs(p.out)
 =============================================================================
